@@ -87,6 +87,14 @@ func engineREGJ(w *World, tier string) *EngineResult {
 			})
 		}
 	}
+	if len(labels) == 0 {
+		// the vocabulary as a table literal instead of a switch
+		if tab, _ := typeNameTableLiteral(bp); tab != nil {
+			for k := range tab {
+				labels[k] = true
+			}
+		}
+	}
 	// classes of the shipped configuration (static files of the tree)
 	classes := map[string]bool{}
 	for _, dir := range []string{".ti-config", "test/.ti-config"} {
